@@ -26,7 +26,7 @@ using simfs::Bytes;
 
 namespace
 {
-  struct FileEntry { std::string name; std::string type; Bytes bytes; };
+  struct FileEntry { std::string name; std::string type; Bytes bytes; Bytes charts; std::string chart_name; };   // charts: companion chart file parsed first (multi-file meshes)
   std::vector<FileEntry> g_files[4];   // quad, tria, hexa, tetra
   const char* g_types[4] = {"conformal:hypercube:2:2", "conformal:simplex:2:2", "conformal:hypercube:3:3", "conformal:simplex:3:3"};
 
@@ -56,17 +56,22 @@ namespace
     };
 
     // parse bytes through the simulated stream layer; documented exception families = rejection
-    static Parsed parse(Bytes& bytes, Doc& doc, size_t chunk, bool vary, size_t eof_limit)
+    static Parsed parse(Bytes& bytes, Doc& doc, size_t chunk, bool vary, size_t eof_limit, Bytes* charts = nullptr)
     {
       Parsed r;
       simfs::SimStreamBuf sb(bytes, chunk, vary);
       sb.eof_limit = eof_limit;
       std::istream is(&sb);
+      Bytes no_charts;
+      simfs::SimStreamBuf sbc(charts ? *charts : no_charts, chunk, vary);
+      std::istream isc(&sbc);
       doc.atlas.reset(new AtlasType);
       doc.node = NodeType::make_unique(nullptr, doc.atlas.get());
       try
       {
-        Geometry::MeshFileReader reader(is);
+        Geometry::MeshFileReader reader;
+        if(charts) reader.add_stream(isc);   // multi-file mesh: the chart file is parsed first
+        reader.add_stream(is);
         reader.parse(*doc.node, *doc.atlas, &doc.parts);
       }
       catch(const Xml::Error& e) { r.outcome = REJECTED; r.what = std::string("Xml::Error: ") + e.what(); }
@@ -215,7 +220,9 @@ namespace
       // replaced by seeded legal values before the first parse - the write/parse/write fixpoint must hold for them too
       if(sim::cfg_int("vary_charts", 0, 1) == 1) vary_chart_params(b0);
       Doc d0;
-      Parsed p0 = parse(b0, d0, c_r0, vary, size_t(-1));
+      Bytes bc = fe.charts;
+      Parsed p0 = parse(b0, d0, c_r0, vary, size_t(-1), bc.empty() ? nullptr : &bc);
+      if(!bc.empty()) sim::probe("multi_file_mesh");
       if(p0.outcome != PARSED) sim::fail("VALID_FILE_REJECTED", where + ": shipped mesh file rejected: " + p0.what);
       for(int r = 0; r < refine; ++r) d0.node = d0.node->refine_unique(Geometry::AdaptMode::none);
       Bytes b1;
@@ -518,6 +525,7 @@ namespace
       closedir(d);
     }
     std::sort(names.begin(), names.end());
+    std::vector<FileEntry> pending, chart_files;
     for(const auto& n : names)
     {
       std::ifstream f(std::string(dir) + "/" + n, std::ios::binary);
@@ -535,10 +543,33 @@ namespace
           std::string cn = all.substr(q, e - q);
           if(!cn.empty() && all.find("<Chart name=\"" + cn + "\"") == std::string::npos) external_chart = true;
         }
-        if(external_chart) continue;
+        if(external_chart) { pending.push_back({n, "", b, Bytes(), ""}); continue; }
       }
+      bool typed = false;
       for(int t = 0; t < 4; ++t)
-        if(head.find(std::string("mesh=\"") + g_types[t] + "\"") != std::string::npos) g_files[t].push_back({n, g_types[t], b});
+        if(head.find(std::string("mesh=\"") + g_types[t] + "\"") != std::string::npos) { g_files[t].push_back({n, g_types[t], b, Bytes(), ""}); typed = true; }
+      if(!typed && head.find("mesh=\"") == std::string::npos) chart_files.push_back({n, "", b, Bytes(), ""});   // chart-only file
+    }
+    // multi-file meshes: pair each mesh that refers to external charts with the first chart-only file defining all of them
+    for(FileEntry& pe : pending)
+    {
+      std::string all(pe.bytes.begin(), pe.bytes.end());
+      std::string head = all.substr(0, std::min<size_t>(all.size(), 400));
+      for(const FileEntry& cf : chart_files)
+      {
+        std::string cs(cf.bytes.begin(), cf.bytes.end());
+        bool ok = true;
+        for(size_t p = all.find(" chart=\""); p != std::string::npos && ok; p = all.find(" chart=\"", p + 1))
+        {
+          size_t q = p + 8, e = all.find('"', q);
+          std::string cn = all.substr(q, e - q);
+          if(!cn.empty() && all.find("<Chart name=\"" + cn + "\"") == std::string::npos && cs.find("<Chart name=\"" + cn + "\"") == std::string::npos) ok = false;
+        }
+        if(!ok) continue;
+        for(int t = 0; t < 4; ++t)
+          if(head.find(std::string("mesh=\"") + g_types[t] + "\"") != std::string::npos) g_files[t].push_back({pe.name + "+" + cf.name, g_types[t], pe.bytes, cf.bytes, cf.name});
+        break;
+      }
     }
   }
 }
